@@ -110,6 +110,8 @@ structure St where
 
 inductive Step where
   | accept (bid : Nat) (es : List Ent)
+  | resume (bid ver : Nat)       -- ghost: the steps that follow belong to request `bid` (a commit batch of several
+                                 -- requests; an entry carrying its own, lower version)
   | vCreate                      -- open:vlog   new value-log file, becomes active
   | vAppend (key : Nat)          -- mmap store into the active file
   | wAppend (e : Ent) (fin : Bool) -- WAL buffer append + memtable insert
@@ -155,7 +157,10 @@ def pendingLen (s : St) : Nat :=
 
 def exec (s : St) : Step → St
   | .accept bid es =>
-    { s with accepted := s.accepted ++ [(bid, es)], curBid := bid, curVer := s.nextTs, nextTs := s.nextTs + 1, cur := [] }
+    { s with accepted := s.accepted ++ [(bid, es)], curBid := bid, curVer := s.nextTs, nextTs := s.nextTs + 1 }
+  | .resume bid ver =>
+    -- a version below the oracle's next timestamp (it was handed out earlier, or the entry brings its own)
+    { s with curBid := bid, curVer := min ver (s.nextTs - 1) }
   | .vCreate =>
     { s with vfiles := s.vfiles ++ [⟨s.vactive + 1, []⟩], vactive := s.vactive + 1 }
   | .vAppend key =>
